@@ -783,7 +783,7 @@ def threads_case(draw, tier):
 LEGS = [
     Leg("machine", run=run_machine,
         gen=lambda tier: machine_case(150 if tier == "quick" else 400),
-        quick=320, thorough=6000, shards_quick=8, shards_thorough=16,
+        quick=1200, thorough=12000, shards_quick=12, shards_thorough=16,
         nt_floor=0.3,
         rule="histories of <=150 (quick) / <=400 (thorough) application calls "
              "and single exchanges on one connection, link MIU 128..2175 and "
@@ -800,7 +800,7 @@ LEGS = [
              "x RW(a),RW(b) in {1,2}; non-trivial = at least one message "
              "accepted."),
     Leg("threads", run=run_threads, gen=lambda tier: threads_case(tier),
-        quick=100, thorough=3000, shards_quick=4, shards_thorough=16,
+        quick=400, thorough=6000, shards_quick=8, shards_thorough=16,
         nt_floor=0.3,
         rule="two complete stacks over the simulated medium; on each side a "
              "blocking sender thread (0..24 quick / 0..48 thorough messages "
